@@ -29,28 +29,31 @@ Definition val (l : bytes) : N := fold_left (fun a d => a * 10 + (d - 48)) l 0.
 Lemma val_app1 : forall l d, val (l ++ [d]) = val l * 10 + (d - 48).
 Proof. intros. unfold val. rewrite fold_left_app. reflexivity. Qed.
 
+Ltac nlia n := pose proof (N.div_mod n 10 ltac:(discriminate)); pose proof (N.mod_upper_bound n 10 ltac:(discriminate));
+                generalize dependent (n mod 10); generalize dependent (n / 10); intros; lia.
+
 Lemma digits_fuel_spec : forall f n acc,
     n < 10 ^ N.of_nat (S f) ->
     exists ds, digits_fuel (S f) n acc = ds ++ acc /\ ds <> [] /\ val ds = n /\ Forall is_digit ds.
 Proof.
   induction f as [|f IH]; intros n acc Hn.
   - replace (10 ^ N.of_nat 1) with 10 in Hn by reflexivity.
-    cbn [digits_fuel]. assert (Hd : N.div n 10 = 0) by (apply N.div_small; lia). rewrite Hd. cbn [N.eqb].
-    exists [48 + n mod 10]. repeat split; [discriminate | | constructor; [|constructor]].
-    + unfold val. cbn [fold_left]. rewrite N.mod_small by lia. lia.
-    + unfold is_digit. pose proof (N.mod_upper_bound n 10 ltac:(lia)). lia.
+    cbn [digits_fuel]. assert (Hd : N.div n 10 = 0) by (apply N.div_small; exact Hn). rewrite Hd. cbn [N.eqb].
+    exists [48 + n mod 10]. split; [reflexivity|]. split; [discriminate|]. split; [|constructor; [|constructor]].
+    + unfold val. cbn [fold_left]. revert Hd. nlia n.
+    + unfold is_digit. clear Hd. nlia n.
   - remember (S f) as f1. cbn [digits_fuel]. destruct (N.eqb (N.div n 10) 0) eqn:E.
-    + apply N.eqb_eq in E. exists [48 + n mod 10]. repeat split; [discriminate | | constructor; [|constructor]].
-      * unfold val. cbn [fold_left]. pose proof (N.div_mod n 10 ltac:(lia)). lia.
-      * unfold is_digit. pose proof (N.mod_upper_bound n 10 ltac:(lia)). lia.
+    + apply N.eqb_eq in E. exists [48 + n mod 10]. split; [reflexivity|]. split; [discriminate|]. split; [|constructor; [|constructor]].
+      * unfold val. cbn [fold_left]. clear IH Hn. revert E. nlia n.
+      * unfold is_digit. clear IH Hn E. nlia n.
     + subst f1. assert (Hq : N.div n 10 < 10 ^ N.of_nat (S f)).
-      { apply N.div_lt_upper_bound; [lia|]. rewrite <- N.pow_succ_r'. rewrite <- Nnat.Nat2N.inj_succ. exact Hn. }
+      { apply N.div_lt_upper_bound; [discriminate|]. rewrite <- N.pow_succ_r'. rewrite <- Nnat.Nat2N.inj_succ. exact Hn. }
       destruct (IH (N.div n 10) ((48 + n mod 10) :: acc) Hq) as [ds [E1 [E2 [E3 E4]]]].
-      exists (ds ++ [48 + n mod 10]). rewrite E1, <- app_assoc. repeat split.
+      exists (ds ++ [48 + n mod 10]). rewrite E1, <- app_assoc. split; [reflexivity|]. split; [|split].
       * destruct ds; discriminate.
-      * rewrite val_app1, E3. pose proof (N.div_mod n 10 ltac:(lia)). lia.
+      * rewrite val_app1, E3. clear. nlia n.
       * apply Forall_app. split; [assumption|]. constructor; [|constructor].
-        unfold is_digit. pose proof (N.mod_upper_bound n 10 ltac:(lia)). lia.
+        unfold is_digit. clear. nlia n.
 Qed.
 
 Lemma digits_spec : forall n, n < 65536 -> digits n <> [] /\ val (digits n) = n /\ Forall is_digit (digits n).
@@ -150,7 +153,7 @@ Proof.
     destruct (rck_form (lower (fqdn n2) ++ digits q2) s2) as [t2 [F2 [T2 [U2 V2]]]].
     rewrite F1, F2 in E.
     assert (Hnb : ~ is_digit bar) by (unfold is_digit, bar; lia).
-    destruct (split_sep bar _ _ t1 t2) with (5 := E) as [E1 E2]; try assumption.
+    destruct (split_sep bar (lower (fqdn n1) ++ digits q1) (lower (fqdn n2) ++ digits q2) t1 t2) as [E1 E2]; try assumption.
     + intros Hin. apply in_app_or in Hin. destruct Hin as [Hin|Hin]; [apply (lower_no_bar _ (fqdn_no_bar _ B1)); assumption | apply (digits_no q1 bar Q1 Hnb); assumption].
     + intros Hin. apply in_app_or in Hin. destruct Hin as [Hin|Hin]; [apply (lower_no_bar _ (fqdn_no_bar _ B2)); assumption | apply (digits_no q2 bar Q2 Hnb); assumption].
     + destruct (canon_digits_split n1 n2 q1 q2 Q1 Q2 E1) as [EN EQ]. repeat split; try assumption.
@@ -178,7 +181,7 @@ Proof.
     + rewrite <- in_rev. assumption.
     + right. eauto.
     + right. eauto.
-    + exact E.
+    + rewrite !rev_app_distr. exact E.
     + inversion E2 as [E3]. apply (f_equal (@rev N)) in E3. rewrite !rev_involutive in E3.
       destruct (canon_digits_split n1 n2 q1 q2 Q1 Q2 E3) as [EN EQ]. repeat split; try assumption.
       apply (f_equal (@rev N)) in E1. rewrite !rev_involutive in E1. exact E1.
@@ -193,3 +196,12 @@ Definition kw_n2 : bytes := [97; 46; 49; 124; 117; 112; 115; 116; 114; 101; 97; 
 Lemma key_injective_refuted_proof :
   key_of kw_n1 1 kw_s1 = key_of kw_n2 5 ScNone /\ lower (fqdn kw_n1) <> lower (fqdn kw_n2).
 Proof. split; vm_compute; [reflexivity | discriminate]. Qed.
+
+Lemma key_injective_full_refuted_proof :
+  ~ (forall n1 q1 s1 n2 q2 s2, q1 < 65536 -> q2 < 65536 ->
+       key_of n1 q1 s1 = key_of n2 q2 s2 ->
+       lower (fqdn n1) = lower (fqdn n2) /\ q1 = q2 /\ scope_str s1 = scope_str s2).
+Proof.
+  intros H. destruct key_injective_refuted_proof as [E Hne].
+  destruct (H kw_n1 1 kw_s1 kw_n2 5 ScNone ltac:(reflexivity) ltac:(reflexivity) E) as [A _]. contradiction.
+Qed.
